@@ -137,9 +137,20 @@ def cut_image_stage(run, img, blocksize, failures):
         return
     new.close()
     run.stats['cut_images_compared'] = run.stats.get('cut_images_compared', 0) + 1
+    # what the library writes into a file itself follows the layout and may change with it: the boot catalog, and bytes 8..64 of
+    # a boot file with a boot info table (only their lengths are compared)
+    volatile = set()
+    for bl in m.blobs.values():
+        if bl.catalog or bl.bit:
+            for ns_, p_ in bl.names:
+                volatile.add(p_)
+                if ns_ == 'iso' and m.rr:
+                    volatile.add(m.rr_path(p_))
     for ns in v1:
         for path, a in (v1[ns] or {}).items():
             b = (v2.get(ns) or {}).get(path)
+            if path in volatile and a is not None and b is not None and a[:2] == b[:2]:
+                continue
             if b != a:
                 what = 'lost' if b is None else ('length' if a[1] != b[1] else 'differs')
                 failures.append(('C02/cut-image/%s/%s' % (ns, what), 'cut-image',
